@@ -262,6 +262,35 @@ def item_zoo():
     for sk, sh in shapes.items():
         for tk, (tl, vm, fm) in tsets.items():
             add('C17|shape|%s|%s' % (sk, tk), '#[derive(Educe)]\n#[educe(%s)]\n%s\n' % (tl, sh.replace('{M}', vm).replace('{F}', fm)), {'shape': sk, 'traits': tk})
+    # generics and where-clauses in unusual layouts x trait sets that carry field-level parameters (code paths that rebuild where-clauses / bind fields by name)
+    gens = {
+        'w-trailing': ("<T>", "where T: Copy,"), 'w-empty': ("<T>", "where"), 'w-two-trailing': ("<'a, T, U>", "where T: 'a + Copy, U: Copy,"), 'w-hrtb': ("<T>", "where for<'x> &'x T: Copy, T: Copy"),
+        'w-none-defaults': ("<T: Copy = u8, const N: usize = 1>", ""), 'w-self': ("<T>", "where Self: Sized, T: Copy"), 'inline-trailing': ("<'a, T: 'a + Copy,>", ""),
+        'w-assoc': ("<I: Iterator>", "where I::Item: Copy, I: Copy,"), 'none': ("", ""),
+    }
+    fsets = {
+        'CopyCloneM': ('Copy, Clone', '#[educe(Clone(method(m)))] '), 'CloneM': ('Clone', '#[educe(Clone(method(m)))] '), 'DebugM': ('Debug', '#[educe(Debug(method(m), name = k))] '),
+        'EqM': ('PartialEq, Eq', '#[educe(PartialEq(method(m)))] '), 'OrdM': ('PartialEq, Eq, PartialOrd, Ord', '#[educe(Ord(method(m), rank = 1))] '), 'HashM': ('Hash', '#[educe(Hash(method(m)))] '),
+        'IntoM': ('Into(u8), Into(u16)', '#[educe(Into(u8, method(m)), Into(u16))] '), 'DerefDM': ('Deref, DerefMut', '#[educe(Deref, DerefMut)] '), 'DefaultE': ('Default(new)', '#[educe(Default = 1)] '),
+        'plain-all': ('Debug, Clone, PartialEq, Eq, PartialOrd, Ord, Hash', ''),
+    }
+    for gk, (g, w) in gens.items():
+        used = [x.strip().split(':')[0].split('=')[0].strip() for x in g.strip('<>').rstrip(',').split(',') if x.strip() and not x.strip().startswith(('const', "'"))]
+        ph = ', '.join('::core::marker::PhantomData<%s>' % u for u in used) or '()'
+        lt = "&'a u8" if "'a" in g else 'u8'
+        for fk, (tl, fm) in fsets.items():
+            vd = '#[educe(Default)] ' if 'Default' in tl else ''
+            for kind, decl in (('sn', 'struct Ty%s %s { %sx: u8, y: %s, p: (%s) }' % (g, w, fm, lt, ph)), ('st', 'struct Ty%s(%su8, %s, (%s)) %s;' % (g, fm, lt, ph, w)),
+                               ('en', 'enum Ty%s %s { %sA(%su8, %s, (%s)), B { %sx: u8, p: (%s) } }' % (g, w, vd, fm, lt, ph, fm, ph))):
+                add('C17|generics|%s|%s|%s' % (gk, fk, kind), '#[derive(Educe)]\n#[educe(%s)]\n%s\n' % (tl, decl), {'generics': g, 'where': w, 'traits': fk})
+    # raw identifiers as field, variant, type and parameter names under every trait set with field-level parameters
+    for fk, (tl, fm) in fsets.items():
+        vd = '#[educe(Default)] ' if 'Default' in tl else ''
+        for rk, decl in (('field', 'struct Ty { %sr#type: u8, r#match: u16 }' % fm), ('field2', 'struct Ty { r#fn: u16, %sr#loop: u8 }' % fm),
+                         ('variant-field', 'enum Ty { %sA { %sr#type: u8, r#in: u16 }, B { %sr#match: u8 } }' % (vd, fm, fm)), ('variant', 'enum Ty { %sr#struct(%su8), r#enum { %sr#type: u8 } }' % (vd, fm, fm)),
+                         ('typename', 'struct r#type { %sx: u8 }' % fm), ('typaram', 'struct Ty<r#dyn> { %sx: u8, y: ::core::marker::PhantomData<r#dyn> }' % fm),
+                         ('constparam', 'struct Ty<const r#const: usize> { %sx: u8, y: [u8; r#const] }' % fm), ('lifetime', "struct Ty<'r#a> { %sx: u8, y: &'r#a u8 }" % fm)):
+            add('C17|raw|%s|%s' % (rk, fk), '#[derive(Educe)]\n#[educe(%s)]\n%s\n' % (tl, decl), {'raw_identifier_as': rk, 'traits': fk})
     for ts in ('PartialEq, PartialOrd', 'PartialEq, Eq, PartialOrd, Ord', 'PartialEq, Eq, Ord'):
         tk = ts.replace('PartialEq, ', '').replace('Eq, ', '')
         for repr, (lo, hi) in list(BOUNDS.items()) + [(None, BOUNDS['isize'])]:
@@ -347,7 +376,7 @@ def check(v, tier):
     return v.finish('seeds: every documented attribute form at type / variant / field / union-field level on a matching shape; every single token-tree mutation of the argument list at every '
                     'nesting level: delete, duplicate, swap adjacent, replace by / insert each element of a 32-token alphabet (identifiers, unsafe, booleans, numbers incl. the isize boundaries, strings, char, = , :: * - '
                     'lifetime < > and empty groups in each delimiter), re-delimit or unwrap every group; attribute forms (#[educe], #[educe = lit], empty and malformed lists, raw identifiers, '
-                    'out-of-range numbers) at six host positions; the item itself: 18 degenerate shapes (zero-field tuple / struct variants and structs, unit, empty, single-field, unions, generics) under 19 trait sets with and without markers; 43 exotic field types (parenthesised and multi-bound trait objects, fn pointers, raw pointers, never, qualified paths, macro types, unsized and self-referential types, ...) under ten trait sets, as Into bystander / source / target and as Deref target, on structs, enums and unions; enum discriminants at the minimum, the maximum and one beyond for every #[repr] at five positions, and 28 literal / non-literal discriminant expressions; nesting depths 1..256 (thorough ..2048) of ten recursive constructs, types with up to 256 fields / variants; all through '
+                    'out-of-range numbers) at six host positions; the item itself: 18 degenerate shapes (zero-field tuple / struct variants and structs, unit, empty, single-field, unions, generics) under 19 trait sets with and without markers; 9 generics / where-clause layouts and raw identifiers in 8 roles under 10 trait sets with field-level parameters; 43 exotic field types (parenthesised and multi-bound trait objects, fn pointers, raw pointers, never, qualified paths, macro types, unsized and self-referential types, ...) under ten trait sets, as Into bystander / source / target and as Deref target, on structs, enums and unions; enum discriminants at the minimum, the maximum and one beyond for every #[repr] at five positions, and 28 literal / non-literal discriminant expressions; nesting depths 1..256 (thorough ..2048) of ten recursive constructs, types with up to 256 fields / variants; all through '
                     'the real macro inside rustc (one expansion round; a sentinel request at the end of every shard proves expansion reached it); thorough: pairs of mutations in-process, every '
                     'panic candidate confirmed through rustc.  Oracle: accepted or refused with a diagnostic; "proc-macro derive panicked", a compiler crash or exceeding the cap (bisected to '
                     'the case) is a violation; non-trivial = inputs refused by an educe diagnostic',
